@@ -9,6 +9,7 @@ for id in "${ids[@]}"; do
   prop=${id%%-*}
   patch=seeded/$id/patch.diff
   [ -f seeded/$id/patch.rebased.diff ] && patch=seeded/$id/patch.rebased.diff
+  if grep -q '"neutralised_by"' seeded/$id/meta.json 2>/dev/null; then echo "$id: neutralised by a later fix (see meta.json), skipped"; echo "{\"id\":\"$id\",\"applies\":true,\"neutralised\":true}" > .work/seeded/$id.json; continue; fi
   if ! git -C /repo apply --check "$PWD/$patch" 2>/dev/null; then echo "$id: patch does not apply"; echo "{\"id\":\"$id\",\"applies\":false}" > .work/seeded/$id.json; continue; fi
   git -C /repo apply "$PWD/$patch"
   cp evidence/$prop.json .work/seeded/$prop.evidence.keep 2>/dev/null
